@@ -34,7 +34,9 @@ Print Assumptions C01_library_layer.
    any number of type parameters or not, with rename / rename_all / rename_all_fields / skip /
    struct-level tag, all four enum representations, fields of any library type expression over type
    parameters and references to (instantiations of) other definitions, recursion included, `inline`
-   on fields of definitions without parameters; no flatten / optional / type / as overrides, which
+   on fields of definitions without parameters, `optional` / `optional = nullable` on Option fields and `optional_fields`
+   on the container where serde agrees with the `?` — a property whose type does not include null carries
+   skip_serializing_if = "Option::is_none", and only such a field may be left out; no flatten / type / as overrides, which
    the corpus correspondence covers instead), for EVERY closed type expression — every instantiation
    of the generic definitions at closed types —, EVERY value and every serde recursion depth: what serde_json emits is, from some evaluation depth on, a member of the TypeScript type
    TS::name() reports, read against the declarations ts-rs generates for that environment. *)
@@ -136,6 +138,36 @@ Example C01_derive_generic_nonvacuous :
       = Ok (lit "type Opt<T> = { ""t"": ""Nothing"" } | { ""t"": ""Just"", ""c"": T } | { ""t"": ""Both"", ""c"": { l: T, r: Pair<T, boolean>, } };"%string) /\
     json_text j = lit "{""first"":5,""second"":[{""t"":""Nothing""},{""t"":""Just"",""c"":""x""},{""t"":""Both"",""c"":{""l"":""y"",""r"":{""first"":""z"",""second"":[true]}}}]}"%string.
 Proof. split; [vm_compute; reflexivity|]. split; [vm_compute; reflexivity|]. eexists; eexists; eexists; eexists. repeat split; vm_compute; reflexivity. Qed.
+
+(* optional properties: #[ts(optional_fields)] struct Opt { #[serde(skip_serializing_if = "Option::is_none")] a: Option<i32>,
+   #[ts(optional = nullable)] b: Option<bool>, c: i32 }: `a` is left out when None, `b` is written as null *)
+Module C01_opt.
+Import C01_example.
+Definition fopt (n : String.string) (t : rty) (o : optional) (skip_none : bool) : field :=
+  {| f_ident := lit n; f_ty := t; f_serde_ty := t; f_rename := None; f_skip := false; f_inline := false;
+     f_flatten := false; f_optional := o; f_type := None; f_docs := []; f_skip_none := skip_none |}.
+Definition R : env :=
+  [(lit "Opt", DStruct {| c_ident := lit "Opt"; c_rename := None; c_rename_all := None; c_tag := None; c_optional_fields := Optional false;
+                          c_docs := []; c_export_to := None; c_type := None; c_as := None; c_params := [] |}
+      (SNamed [fopt "a" (ROption i32) NotOptional true; fopt "b" (ROption (RLeaf LBool)) (Optional true) false; fopt "c" i32 NotOptional false]))].
+Definition t : rty := RNamed (lit "Opt") [].
+End C01_opt.
+
+Example C01_derive_optional_nonvacuous :
+  let R := C01_opt.R in
+  plain_envb C01_example.up C01_example.al is_ascii_digit R 10 = true /\ mono_ty R C01_opt.t = true /\
+  exists a d j1 j2, name_of R C01_opt.t = Ok a /\ Rust.lookup R (lit "Opt"%string) = Some d /\
+    decl_text C01_example.up C01_example.al is_ascii_digit R 10 d = Ok (lit "type Opt = { a?: number, b?: boolean | null, c: number, };"%string) /\
+    ser C01_example.up R 10 C01_opt.t (VStruct [VNone; VNone; VInt 1]) = Some j1 /\ json_text j1 = lit "{""b"":null,""c"":1}"%string /\
+    memberb (env_of C01_example.up C01_example.al is_ascii_digit R 10) 12 a j1 = true /\
+    ser C01_example.up R 10 C01_opt.t (VStruct [VSome (VInt 2); VSome (VBool true); VInt 1]) = Some j2 /\ json_text j2 = lit "{""a"":2,""b"":true,""c"":1}"%string /\
+    memberb (env_of C01_example.up C01_example.al is_ascii_digit R 10) 12 a j2 = true.
+Proof.
+  cbv zeta. split; [vm_compute; reflexivity|]. split; [vm_compute; reflexivity|]. eexists; eexists; eexists; eexists.
+  split; [vm_compute; reflexivity|]. split; [vm_compute; reflexivity|]. split; [vm_compute; reflexivity|].
+  split; [vm_compute; reflexivity|]. split; [vm_compute; reflexivity|]. split; [vm_compute; reflexivity|].
+  split; [vm_compute; reflexivity|]. split; vm_compute; reflexivity.
+Qed.
 
 Print Assumptions C01_derive_layer.
 Print Assumptions C01_derive_layer_inline.
